@@ -9,8 +9,9 @@
   (`tmpresDim`), `min_x_list` — is explicit state of `EnvState`; `reset` says what the code does
   to each of them.
 
-  `resetKeep` is the VARIANT of the code that re-initialises the cache only when the number of
-  unknowns changed (seeded change C03-seed2): used for the witness that the erase step is needed.
+  `resetKeep` is the VARIANT of the code that re-initialises the cache only when the vectors are not
+  already allocated with the new number of unknowns (seeded change C03-seed2, exactly: round 4 made the
+  dimension of the `qxxbuf` vectors a field, `HState.bufDim`): the witness that the erase step is needed.
   Core Lean only.
 -/
 import Gama.Model.EnvState
@@ -19,29 +20,48 @@ namespace Gama.C04
 structure HState where
   inp : EnvInput
   s : EnvState
+  /-- `qxxbuf[i].dim()` when the last call returned (round 4: the dimension is state; the three vectors are always
+      (re)allocated together): 0 after `reset` (`qxxbuf[i].reset()`), `parameters` once `solve_x0` ran on a singular
+      system (`if (nullity) … qxxbuf[i].reset(parameters)`) or `q0_xx` took the full-solution branch
+      (`if (qxxbuf[0].dim() != parameters) … reset(parameters)`).  The code never reads it across a `reset`; the
+      seeded variant `resetKeep` does. -/
+  bufDim : Nat := 0
 
 inductive HOp
   | q (op : Op)                     -- an API call on the current input
   | resetNew (inp' : EnvInput)      -- `reset(data')`
 
-/-- one call; `rst old new s` is what `reset(data')` does to the object -/
-def hstepWith (rst : EnvInput → EnvInput → EnvState → EnvState) (h : HState) : HOp → HState × Out
-  | .q op => (⟨h.inp, (step h.inp h.s op).1⟩, (step h.inp h.s op).2)
-  | .resetNew inp' => (⟨inp', rst h.inp inp' h.s⟩, .ok)
+/-- dimension of the `qxxbuf` vectors after the call `op` (state `pre` → `post`, answer `out`) -/
+def dimAfter (inp : EnvInput) (pre post : EnvState) (op : Op) (out : Out) (d : Nat) : Nat :=
+  if op = .reset then 0
+  else if inp.nullity ≠ 0 ∧ pre.stage < 2 ∧ 2 ≤ post.stage then inp.n      -- `solve_x0` ran, singular system
+  else match out with
+    | .q0col _ _ => inp.n                                                    -- `q0_xx` outside the envelope
+    | _ => d
 
-def hrunWith (rst : EnvInput → EnvInput → EnvState → EnvState) (h : HState) : List HOp → HState
+/-- one call; `rst h new` is what `reset(data')` does to the object: the new `EnvState` and buffer dimension -/
+def hstepWith (rst : HState → EnvInput → EnvState × Nat) (h : HState) : HOp → HState × Out
+  | .q op => (⟨h.inp, (step h.inp h.s op).1, dimAfter h.inp h.s (step h.inp h.s op).1 op (step h.inp h.s op).2 h.bufDim⟩,
+              (step h.inp h.s op).2)
+  | .resetNew inp' => (⟨inp', (rst h inp').1, (rst h inp').2⟩, .ok)
+
+def hrunWith (rst : HState → EnvInput → EnvState × Nat) (h : HState) : List HOp → HState
   | [] => h
   | o :: os => hrunWith rst (hstepWith rst h o).1 os
 
-/-- the code: `reset` does not look at the old input -/
-def hstep : HState → HOp → HState × Out := hstepWith fun _ _ s => reset s
-def hrun : HState → List HOp → HState := hrunWith fun _ _ s => reset s
+/-- the code: `reset` looks neither at the old input nor at the buffers; it leaves them with dimension 0 -/
+def codeReset : HState → EnvInput → EnvState × Nat := fun h _ => (reset h.s, 0)
+def hstep : HState → HOp → HState × Out := hstepWith codeReset
+def hrun : HState → List HOp → HState := hrunWith codeReset
 
-/-- the variant "work vectors are reallocated only if the number of unknowns has changed":
-    keys and buffers are kept when `parameters` is unchanged -/
-def resetKeep (old new : EnvInput) (s : EnvState) : EnvState :=
-  if old.n = new.n then
-    setStage { s with minx := if s.minxDef then none else s.minx, minxDef := false, haveX0 := false, haveResid := false, haveQ0 := false, haveX := false, xreg := none } 0
-  else reset s
+/-- the seeded variant (seeded/C03-seed2, exactly): "work vectors are reallocated only if the number of unknowns
+    has changed" — `if (qxxbuf.size() != indbuf.size() || qxxbuf[0].dim() != parameters) { erase; resize; reset }`:
+    key table and vectors are KEPT when the buffers are already allocated with the new number of unknowns
+    (`bufDim = new.n`); everything else as the code (`min_x_default` list dropped, `set_stage(stage_init)`) -/
+def resetKeep (h : HState) (new : EnvInput) : EnvState × Nat :=
+  if h.bufDim = new.n then
+    (setStage { h.s with minx := if h.s.minxDef then none else h.s.minx, minxDef := false, haveX0 := false,
+                         haveResid := false, haveQ0 := false, haveX := false, xreg := none } 0, h.bufDim)
+  else (reset h.s, 0)
 
 end Gama.C04
